@@ -444,7 +444,7 @@ pub fn run_job(w: &World, j: &VJob) -> Option<(String, Value)> {
 const NONCE: &str = "123432421212";
 
 fn pick(cred: usize, attrs: &[(&str, bool)], preds: &[&str], list: Option<usize>) -> Pick {
-    Pick { cred, attrs: attrs.iter().map(|(r, b)| (r.to_string(), *b)).collect(), preds: preds.iter().map(|s| s.to_string()).collect(), list }
+    Pick { cred, attrs: attrs.iter().map(|(r, b)| (r.to_string(), *b)).collect(), preds: preds.iter().map(|s| s.to_string()).collect(), list, inc: false }
 }
 
 fn job(class: &str, fmt: Fmt, build: &ReqSpec, verify: &ReqSpec, picks: Vec<Pick>, w: &World) -> VJob {
